@@ -241,6 +241,10 @@ var builders = map[string]builder{
 	"Worker.StartGroup": func(sc scenario, p *probe, bg context.Context) *subject {
 		return &subject{tErr, obsW(p.worker().StartGroup(bg, sc.M))}
 	},
+	// Worker.Group: nothing starts at construction; the one waiter's call starts the m copies and waits
+	"Worker.Group": func(sc scenario, p *probe, bg context.Context) *subject {
+		return &subject{tErr, obsW(p.worker().Group(sc.M))}
+	},
 	"Producer.Launch": func(sc scenario, p *probe, bg context.Context) *subject {
 		return &subject{tValErr, obsP(p.producer().Launch(bg))}
 	},
@@ -303,7 +307,14 @@ type hookLog struct {
 	cancel context.CancelFunc
 }
 
-func (h *hookLog) get() []string { h.mu.Lock(); defer h.mu.Unlock(); return append([]string{}, h.log...) }
+// take returns the parts run since the last call and clears the log (one call = one step).
+func (h *hookLog) take() []string {
+	h.mu.Lock()
+	defer h.mu.Unlock()
+	out := append([]string{}, h.log...)
+	h.log = nil
+	return out
+}
 
 // part runs part `name`: logs its start and produces its scripted outcome.
 func (h *hookLog) part(name string) error {
@@ -394,13 +405,51 @@ func buildHooks(sc scenario, h *hookLog) (func(context.Context), error) {
 	return nil, fmt.Errorf("kind %q is not in the harness's constructor table", sc.Kind)
 }
 
+// buildPJoin: Producer.Join of two scripted producers (a result beyond a script is io.EOF).
+func buildPJoin(sc scenario, h *hookLog) func(context.Context) {
+	var sa, sb []string
+	second := false
+	for _, r := range sc.Script {
+		switch {
+		case r == "|":
+			second = true
+		case second:
+			sb = append(sb, r)
+		default:
+			sa = append(sa, r)
+		}
+	}
+	mk := func(name string, script []string) fun.Producer[int] {
+		i := 0
+		return func(context.Context) (int, error) {
+			h.mu.Lock()
+			h.log = append(h.log, name)
+			r := "eof"
+			if i < len(script) {
+				r = script[i]
+			}
+			i++
+			h.mu.Unlock()
+			switch r {
+			case "ok":
+				return i, nil
+			case "eof":
+				return 0, io.EOF
+			}
+			return 0, &execErr{i, "err"}
+		}
+	}
+	j := mk("a", sa).Join(mk("b", sb))
+	return func(ctx context.Context) { _, _ = j(ctx) }
+}
+
 // kindTable lists every kind the harness can construct (checked against the spec's table by c15.py).
 func kindTable() []string {
 	var out []string
 	for k := range builders {
 		out = append(out, k)
 	}
-	for _, k := range []string{"Worker.Retry", "Processor.Retry", "Producer.Retry",
+	for _, k := range []string{"Worker.Retry", "Processor.Retry", "Producer.Retry", "Producer.Join",
 		"Worker.Join", "Processor.Join", "Operation.Join", "Handler.Join", "Handler.Chain", "Future.Join",
 		"Worker.PreHook", "Producer.PreHook", "Processor.PreHook", "Operation.PreHook", "Future.PreHook", "Handler.PreHook",
 		"Worker.PostHook", "Producer.PostHook", "Processor.PostHook", "Operation.PostHook", "Future.PostHook"} {
